@@ -1,6 +1,7 @@
 package interp
 
 import (
+	"encoding/json"
 	"fmt"
 	"os"
 	"os/exec"
@@ -157,6 +158,16 @@ func (ex *Explorer) Run() {
 	ex.Once = map[string]int{}
 	ex.start = time.Now()
 	ex.work = []workItem{{}}
+	if f := os.Getenv("GOSMT_ONLYPREFIX"); f != "" {
+		// debugging: run exactly one recorded path
+		var rec struct {
+			Trace []Decision `json:"trace"`
+		}
+		if b, err := os.ReadFile(f); err == nil && json.Unmarshal(b, &rec) == nil {
+			ex.work = []workItem{{prefix: rec.Trace}}
+			ex.Cfg.MaxPaths = 1
+		}
+	}
 	if ex.Sem == nil {
 		ex.Sem = make(chan struct{}, ex.Cfg.Workers)
 	}
@@ -270,6 +281,10 @@ func (w *Worker) loop() {
 			}
 		case OutInconclusive:
 			ex.PathsInconclusive++
+			if d := os.Getenv("GOSMT_DEBUGDIR"); d != "" {
+				b, _ := json.Marshal(map[string]interface{}{"why": p.Why, "trace": p.trace, "prefix": item.prefix})
+				os.WriteFile(fmt.Sprintf("%s/inconclusive-%s-%d.json", d, ex.Entry.Name(), ex.Paths), b, 0o644)
+			}
 			why := p.Why
 			if len(why) > 600 {
 				why = why[:600]
